@@ -1386,6 +1386,16 @@ class QueryBuilder(Selectable, Term):  # type:ignore[misc]
                 return False
         return True
 
+    def _references_foreign_table(self) -> bool:
+        """
+        True if WHERE / PREWHERE mention a table that is not among the statement's own sources. Evaluated when the
+        statement is rendered, so that calling where() before from_()/join() gives the same SQL as calling it after.
+        """
+        return any(
+            criterion is not None and not self._validate_table(criterion)
+            for criterion in (self._wheres, self._prewheres)
+        )
+
     def _tag_subquery(self, subquery: Self) -> None:
         subquery.alias = "sq%d" % self._subquery_count
         self._subquery_count += 1
@@ -1436,7 +1446,7 @@ class QueryBuilder(Selectable, Term):  # type:ignore[misc]
         has_joins = bool(self._joins)
         has_multiple_from_clauses = 1 < len(self._from)
         has_subquery_from_clause = 0 < len(self._from) and isinstance(self._from[0], QueryBuilder)
-        has_reference_to_foreign_table = self._foreign_table
+        has_reference_to_foreign_table = self._references_foreign_table()
         has_update_from = self._update_table and self._from
 
         # "subquery" and "with_alias" say how this query as a whole is embedded (brackets, alias); its own clauses
